@@ -208,7 +208,8 @@ Definition g_real_sample : glyph :=
 Record codecs_closed (K : codecs) : Prop := {
   kc_lib : part_closed (K_lib K); kc_groups : part_closed (K_groups K); kc_kerning : part_closed (K_kerning K);
   kc_lc : part_closed (K_lc K); kc_contents : part_closed (K_contents K); kc_li : part_closed (K_li K);
-  kc_meta_norad : forall mi, wf (K_meta K) {| m_creator := Some NORAD_CREATOR; m_version := 3; m_minor := mi |};
+  kc_meta_norad : forall c m, dec (K_meta K) c = Some m ->
+                  wf (K_meta K) {| m_creator := Some NORAD_CREATOR; m_version := 3; m_minor := m_minor m |};
   kc_contents_names : forall c l, dec (K_contents K) c = Some l -> Forall (fun e => name_valid (fst e) = true) l;
   kc_info_ids : forall r i, FI.fi_load r = Ok i ->
                 forall gs, FI.i_guides i = Some gs -> Forall (fun g => forall id, FI.g_id g = Some id -> K_wf_key K id) gs }.
@@ -219,3 +220,72 @@ Record codecs_closed (K : codecs) : Prop := {
 Definition glyph_rt_domain (pf : str -> option fl) (ff3 : fl -> str) (g : glyph) : Prop :=
   glyph_finite g /\ libs_valid g = true /\ libs_plain g = true /\ note_survives (gnote g) = true /\
   glyph_canon pf ff3 g.
+
+(** ** metainfo.plist, layercontents.plist and contents.plist from the tree-level plist codec
+    (Model/FontRealPlist.v): what then stays abstract are the codecs of lib.plist, groups.plist,
+    kerning.plist and layerinfo.plist *)
+Require Import Norad.Model.FontRealPlist.
+
+Record codecs4 : Type := {
+  K4_content : Type; K4_opts : Type; K4_color : Type;
+  K4_lib : part K4_content K4_opts dict;
+  K4_groups : part K4_content K4_opts GR.groups;
+  K4_kerning : part K4_content K4_opts GR.kerning;
+  K4_li : part K4_content K4_opts (option K4_color * option dict);
+  K4_ceq : K4_color -> K4_color -> Prop;
+  K4_wf_color : K4_color -> Prop;
+  K4_wf_key : str -> Prop;
+  K4_wf_pv : pv -> Prop;
+  K4_lower : str -> str }.
+
+Section WithPlistFiles.
+Variable pf : str -> option fl.
+Variable ff : fl -> str.
+Variable fi : Z -> str.
+Variable K4 : codecs4.
+
+Definition content4 : Type := (K4_content K4 + node)%type.
+Definition lift_l {X} (p : part (K4_content K4) (K4_opts K4) X) : part content4 (K4_opts K4) X :=
+  {| enc := fun o x => option_map inl (enc p o x);
+     dec := fun c => match c with inl c => dec p c | inr _ => None end;
+     wf := wf p; peq := peq p |}.
+Definition lift_r {X} (p : part node (K4_opts K4) X) : part content4 (K4_opts K4) X :=
+  {| enc := fun o x => option_map inr (enc p o x);
+     dec := fun c => match c with inr n => dec p n | inl _ => None end;
+     wf := wf p; peq := peq p |}.
+
+Definition with_plist_files : codecs := {|
+  K_content := content4; K_opts := K4_opts K4; K_color := K4_color K4;
+  K_meta := lift_r (P_meta_real pf ff fi (K4_opts K4));
+  K_lib := lift_l (K4_lib K4);
+  K_groups := lift_l (K4_groups K4);
+  K_kerning := lift_l (K4_kerning K4);
+  K_lc := lift_r (P_lc_real pf ff fi (K4_opts K4));
+  K_contents := lift_r (P_contents_real pf ff fi (K4_opts K4));
+  K_li := lift_l (K4_li K4);
+  K_ceq := K4_ceq K4; K_wf_color := K4_wf_color K4;
+  K_lc_entry_wf := fun e => name_valid (fst e) = true;
+  K_wf_key := K4_wf_key K4; K_wf_pv := K4_wf_pv K4; K_lower := K4_lower K4 |}.
+End WithPlistFiles.
+
+Definition wf_dict4 (K4 : codecs4) (d : dict) : Prop :=
+  forall k v, alookup k d = Some v -> K4_wf_key K4 k /\ K4_wf_pv K4 v.
+(** the laws that remain: those of the four files whose values need the dictionary / number layer *)
+Record codecs4_ok (K4 : codecs4) : Prop := {
+  k4_lib : part_ok (K4_lib K4); k4_groups : part_ok (K4_groups K4); k4_kerning : part_ok (K4_kerning K4);
+  k4_li : part_ok (K4_li K4);
+  k4_groups_exact : forall a b, peq (K4_groups K4) a b -> a = b;
+  k4_li_wf : forall c ol, wf (K4_li K4) (c, ol) <->
+             (forall x, c = Some x -> K4_wf_color K4 x) /\ (forall l, ol = Some l -> wf_dict4 K4 l);
+  k4_lib_wf : forall d, wf (K4_lib K4) d <-> wf_dict4 K4 d;
+  k4_groups_nil_wf : wf (K4_groups K4) []; k4_kerning_nil_wf : wf (K4_kerning K4) [];
+  k4_wf_mk : forall d, wf_dict4 K4 d -> K4_wf_pv K4 (PDict d);
+  k4_wf_as : forall d, K4_wf_pv K4 (PDict d) -> wf_dict4 K4 d;
+  k4_wf_obj_key : K4_wf_key K4 OBJ;
+  k4_lib_eq : forall a b, peq (K4_lib K4) a b <-> pd_eq a b;
+  k4_li_eq : forall a b, peq (K4_li K4) a b <-> orel (K4_ceq K4) (fst a) (fst b) /\ orel pd_eq (snd a) (snd b) }.
+Record codecs4_closed (K4 : codecs4) : Prop := {
+  k4c_lib : part_closed (K4_lib K4); k4c_groups : part_closed (K4_groups K4);
+  k4c_kerning : part_closed (K4_kerning K4); k4c_li : part_closed (K4_li K4);
+  k4c_info_ids : forall r i, FI.fi_load r = Ok i ->
+                 forall gs, FI.i_guides i = Some gs -> Forall (fun g => forall id, FI.g_id g = Some id -> K4_wf_key K4 id) gs }.
